@@ -5,6 +5,7 @@ package main
 
 import (
 	"fmt"
+	"hash/fnv"
 	"go/token"
 	"go/types"
 	"os"
@@ -231,7 +232,16 @@ func (P *Program) typeID(t types.Type) int {
 	if id, ok := P.typeIDs[k]; ok {
 		return id
 	}
-	id := len(P.typeIDs) + 1
+	// deterministic id: hash of the type's name (collisions resolved by probing)
+	h := fnv.New32a()
+	h.Write([]byte(k))
+	id := int(h.Sum32()%1000000) + 1
+	for {
+		if _, used := P.typeByID[id]; !used {
+			break
+		}
+		id++
+	}
 	P.typeIDs[k] = id
 	P.typeByID[id] = t
 	return id
